@@ -76,7 +76,11 @@ class FakeProfiler:
     def finish(self):
         self.events.append('finish')
 
+    fault = False
+
     def loadStats(self, g):
+        if FakeProfiler.fault:      # no statistics file found (e.g. a test changed the working directory): the real loader returns None
+            return None
         return types.SimpleNamespace(sort_stats=lambda *a: None, print_stats=lambda *a: None)
 
 
@@ -134,9 +138,10 @@ def _foreign_print(*a, **k):
     pass
 
 
-def state(ngc, G, cov, prof, buf, x, D, warn, end, pos, foreign=False):
+def state(ngc, G, cov, prof, buf, x, D, warn, end, pos, foreign=False, pfault=False):
     global LAST
     ngc = ci(ngc, 0, 3)
+    pfault = cb(pfault)          # a fault while the features are shut down: the profiler finds no statistics, its global_teardown raises
     G, cov, prof, buf, x, D, foreign = map(cb, (G, cov, prof, buf, x, D, foreign))
     warn = pick(WARN, warn)
     end = pick(ENDS, end)
@@ -158,10 +163,14 @@ def state(ngc, G, cov, prof, buf, x, D, warn, end, pos, foreign=False):
         argv += ['-D']
     with untraced():
         fs, ft = install_fakes()
+        FakeProfiler.fault = pfault
         baseline()
-        if foreign:        # the embedding program installed its own traceback formatting before the run
+        if foreign:        # the embedding program (or an enclosing run) changed the state before this run: its own traceback
+            # formatting, garbage-collector debug flags and thresholds - "what they were before the run" is not the default
             traceback.format_exception = _foreign_format
             traceback.print_exception = _foreign_print
+            gc.set_debug(gc.DEBUG_UNCOLLECTABLE)
+            gc.set_threshold(701, 11, 11)
         calls = [0]
 
         def boom_at(which, exc):
@@ -218,7 +227,7 @@ def state(ngc, G, cov, prof, buf, x, D, warn, end, pos, foreign=False):
                                                           '; '.join('%s %r -> %r' % (k, before[k], after[k]) for k in diff))
         started = any(e[1] == 'test' for e in W.TRACE)
         baseline()
-    LAST = (tuple(argv), warn, end, pos, raised, why, started, tuple(fs.trace_calls), tuple(tuple(p.events) for p in FakeProfiler.instances), foreign)
+    LAST = (tuple(argv), warn, end, pos, raised, why, started, tuple(fs.trace_calls), tuple(tuple(p.events) for p in FakeProfiler.instances), foreign, pfault)
     return why is None
 
 
@@ -227,15 +236,15 @@ def state_reach(*a):
     return LAST[5] is None and LAST[4] == 'KeyboardInterrupt' and len(LAST[7]) == 2 and LAST[8] and LAST[8][0][:1] == ('enable',)
 
 
-_P = [('ngc', 'int'), ('G', 'bool'), ('cov', 'bool'), ('prof', 'bool'), ('buf', 'bool'), ('x', 'bool'), ('D', 'bool'), ('warn', 'int'), ('end', 'int'), ('pos', 'int'), ('foreign', 'bool')]
+_P = [('ngc', 'int'), ('G', 'bool'), ('cov', 'bool'), ('prof', 'bool'), ('buf', 'bool'), ('x', 'bool'), ('D', 'bool'), ('warn', 'int'), ('end', 'int'), ('pos', 'int'), ('foreign', 'bool'), ('pfault', 'bool')]
 _C = ', '.join(n for n, _ in _P)
-_B = '0 <= ngc <= 3 and 0 <= warn < %d and 0 <= end < %d and 0 <= pos <= 1 and (not D or end != 1)' % (len(WARN), len(ENDS))
-_Q = _B + ' and warn <= 2 and (G + cov + prof + buf + x + D <= 2) and (not foreign or (warn == 0 and ngc == 0 and G + cov + prof + buf + x + D <= 1))'
+_B = '(not pfault or prof) and 0 <= ngc <= 3 and 0 <= warn < %d and 0 <= end < %d and 0 <= pos <= 1 and (not D or end != 1)' % (len(WARN), len(ENDS))
+_Q = _B + ' and (not pfault or (not foreign and warn == 0 and ngc == 0)) and warn <= 2 and (G + cov + prof + buf + x + D <= 2) and (not foreign or (warn == 0 and ngc <= 1 and (ngc != 0) + G + cov + prof + buf + x + D <= 1))'
 _T = _B
 
 
 def _v(**kw):
-    v = dict(ngc=1, G=True, cov=True, prof=True, buf=True, x=False, D=False, warn=0, end=0, pos=0, foreign=False)
+    v = dict(ngc=1, G=True, cov=True, prof=True, buf=True, x=False, D=False, warn=0, end=0, pos=0, foreign=False, pfault=False)
     v.update(kw)
     return v
 
@@ -261,6 +270,6 @@ SPEC = {
          'reach': 'state_reach', 'reach_bounds': {'quick': _B + ' and end == 4 and ngc == 1 and G and cov and prof and not D and warn == 0',
                                                   'thorough': _B + ' and end == 4 and ngc == 1 and G and cov and prof and not D and warn == 0'},
          'timeout': {'quick': 400, 'thorough': 1700},
-         'fidelity': [_v(), _v(end=4, pos=1), _v(end=2, D=True, ngc=3, warn=1), _v(end=3, x=True, warn=3, cov=False), _v(end=5, buf=False, prof=False), _v(foreign=True, end=1), _v(foreign=True, end=4, pos=1)]},
+         'fidelity': [_v(), _v(end=4, pos=1), _v(end=2, D=True, ngc=3, warn=1), _v(end=3, x=True, warn=3, cov=False), _v(end=5, buf=False, prof=False), _v(foreign=True, end=1), _v(foreign=True, end=4, pos=1), _v(foreign=True, G=True, cov=False, prof=False, buf=False, ngc=0), _v(foreign=True, ngc=2, G=False, cov=False, prof=False, buf=False, end=4), _v(pfault=True), _v(pfault=True, end=4, G=False, buf=False, ngc=0)]},
     ],
 }
